@@ -175,6 +175,17 @@ fn judge_at(c: &Case, h: &[u8], stream: &Vec<u8>, st: &mut Stats) -> Verdict {
                 Err(_) => {}
                 Ok(x) => return fail("v1::try_from(&str)", format!("{:?} [incomplete={}]", x, x.is_incomplete())),
             }
+            // the two str::parse routes are text entry points of this version as well
+            match &imp::v1_fromstr_header(s) {
+                Ok(x) if x.is_err() && incomplete_flags(x) => {}
+                Err(_) => {}
+                Ok(x) => return fail("str::parse::<v1::Header>", format!("{:?} [incomplete={}]", x, x.is_incomplete())),
+            }
+            match &imp::v1_fromstr_addr(s) {
+                Ok(x) if x.is_err() && incomplete_flags(x) => {}
+                Err(_) => {}
+                Ok(x) => return fail("str::parse::<v1::Addresses>", format!("{:?} [incomplete={}]", x, x.is_incomplete())),
+            }
             if !st.frozen {
                 st.class(cut_class_v1(h, k));
             }
